@@ -191,6 +191,8 @@ def k_c05(ctx):
             if cls and cls[0] == "CapExceeds": continue            # another obstacle (C11's business)
             if cls and cls[0] == "NoExemption": continue
             if cls and cls[0] == "ZeroRatio": continue             # an invalid split ratio is refused for its own reason (fix 45ca768)
+            if not rr.get("ok") and rr.get("stage") != "panic" and "overflow" in rr.get("error", "").lower() and classes.extreme_magnitudes(ledger.render(lines)):
+                ctx.count("refused_for_numeric_range", 1); continue  # figures beyond the decimal type's range, refused with a message: another obstacle
             if not unc and not rr.get("ok"):
                 bad = ("covered_refused", "every sale is covered but the code refuses: %s" % rr.get("error", "")[:200])
             elif unc and rr.get("ok"):
